@@ -832,7 +832,17 @@ def run(ctx):
         finally:
             os.environ['VERIF_SEED'] = str(ctx.seed)
         return [c for c in more if c.oracle_ok is False and c.finding is None]
+    # cross-model agreement with C01 (another engineer's files): built and reported, not part of the verdict
+    import subprocess
+    from vlib import LEAN
+    try:
+        pr = subprocess.run(['lake', 'build', 'LimnoriaModel.C04.AgreeC01'], cwd=LEAN, stdout=subprocess.PIPE, stderr=subprocess.STDOUT, timeout=900)
+        agree = ('proved: C04.setDefaults_agree, C04.duplicate_agree (lean/LimnoriaModel/C04/AgreeC01.lean)' if pr.returncode == 0
+                 else 'does not build at present: ' + pr.stdout.decode('utf-8', 'replace')[-300:])
+    except Exception as e:
+        agree = 'not checked: %r' % (e,)
     return verdict.conclude(PROPERTY, ctx.tier, ctx.seed, build, cases, search=search, rule=RULE,
+                            extra={'cross_model_agreement_with_C01': agree},
                             trusted_base=TRUSTED,
                             assumptions=['Python asserts enabled', 'the clock does not run backwards', 'timeoutIdentification fixed within a history',
                                          'generated names and hostmasks are ASCII plus caseless non-ASCII characters (re.I / str.lower outside ASCII not modelled)'],
